@@ -270,6 +270,15 @@ func (ex *Exec) chanSend(ch *Chan, v Value) {
 		ch.buf = append(ch.buf, copyVal(v))
 		return
 	}
+	if ex.sched == nil && !ex.inGos {
+		// the main line would block here: the service goroutines get to run (a blocked sender
+		// waits for its receiver), then the send is retried once
+		ex.runGoroutines()
+		if len(ch.buf) < ch.cap {
+			ch.buf = append(ch.buf, copyVal(v))
+			return
+		}
+	}
 	panic(goBlocked{"send on full channel"})
 }
 
@@ -374,6 +383,11 @@ func (ex *Exec) spawn(fv Value, args []Value, site ssa.Instruction) {
 // exact for the service loops in reach (`for { select { ... } }` blocks only at the loop
 // head and carries no state across iterations) and is stated as an assumption.
 func (ex *Exec) runGoroutines() {
+	if ex.inGos {
+		return
+	}
+	ex.inGos = true
+	defer func() { ex.inGos = false }()
 	ex.gos = append(ex.parked, ex.gos...)
 	ex.parked = nil
 	for len(ex.gos) > 0 {
